@@ -371,6 +371,74 @@ Proof.
 Qed.
 End PlattR.
 
+(** a multi-class wrapper of row functions is a row function, for every comparison [gtb] *)
+Section MultiClassRowwise.
+Context {Row L P : Type} (gtb : P -> P -> bool).
+
+(* the label a multi-class wrapper of row functions gives to one row *)
+Definition mc_row (fs : list (L * (Row -> P))) (dflt : L) (x : Row) : L :=
+  match fs with
+  | [] => dflt
+  | lf0 :: fs' => fst (best1 gtb (fst lf0, snd lf0 x) (map (fun lf => (fst lf, snd lf x)) fs'))
+  end.
+Definition mc_lift (fs : list (L * (Row -> P))) : list (L * (list Row -> list P)) :=
+  map (fun lf => (fst lf, rowwise (snd lf))) fs.
+
+Lemma repeat_map_const {A B} (b : B) (l : list A) : repeat b (length l) = map (fun _ => b) l.
+Proof. induction l; simpl; congruence. Qed.
+
+Lemma mc_fold_empty (ps : list (list (L * P))) :
+  (forall p, In p ps -> p = []) -> fold_left (mc_step gtb) ps [] = [].
+Proof.
+  induction ps as [|p ps IH]; intros H; simpl; auto.
+  rewrite (H p) by (left; auto). simpl. apply IH. intros q Hq. apply H. right; auto.
+Qed.
+
+Lemma mc_rowwise (fs : list (L * (Row -> P))) (X : list Row) (dflt : L) :
+  mc_predict gtb dflt (mc_lift fs) X = Some (rowwise (mc_row fs dflt) X).
+Proof.
+  unfold mc_predict, mc_predict_inplace. rewrite repeat_length, Nat.eqb_refl. f_equal.
+  destruct fs as [|lf0 fs].
+  - unfold mc_res, mc_lift, mc_pairs. simpl. rewrite repeat_map_const.
+    unfold rowwise, mc_row. destruct (map (fun _ : Row => dflt) X); reflexivity.
+  - destruct X as [|x0 X'].
+    + unfold mc_res. rewrite mc_fold_empty; [reflexivity|].
+      intros p Hp. unfold mc_pairs, mc_lift in Hp. rewrite map_map in Hp.
+      apply in_map_iff in Hp as [lf [<- _]]. reflexivity.
+    + set (X := x0 :: X').
+      set (dp := (dflt, snd lf0 x0)).
+      assert (Hlen : forall lm, In lm (mc_lift (lf0 :: fs)) -> length (snd lm X) = length X).
+      { intros lm Hlm. unfold mc_lift in Hlm. apply in_map_iff in Hlm as [lf [<- _]]. cbn [snd]. unfold rowwise. apply map_length. }
+      change (mc_lift (lf0 :: fs)) with ((fst lf0, rowwise (snd lf0)) :: mc_lift fs) in *.
+      assert (Hres : length (mc_res gtb ((fst lf0, rowwise (snd lf0)) :: mc_lift fs) X) = length X).
+      { destruct (mc_res_nth gtb (mc_lift fs) X (fst lf0, rowwise (snd lf0)) dp 0 Hlen) as [H _]; [simpl; lia | exact H]. }
+      rewrite overwrite_full by (rewrite repeat_length; exact Hres).
+      apply nth_ext with (d := fst dp) (d' := mc_row (lf0 :: fs) dflt x0).
+      * rewrite map_length, Hres. unfold rowwise. rewrite map_length. reflexivity.
+      * intros i Hi. rewrite map_length, Hres in Hi.
+        rewrite (map_nth_lt fst _ dp) by (rewrite Hres; exact Hi).
+        destruct (mc_res_nth gtb (mc_lift fs) X (fst lf0, rowwise (snd lf0)) dp i Hlen Hi) as [_ Hn].
+        rewrite Hn. unfold rowwise. rewrite (map_nth_lt _ X x0) by exact Hi.
+        unfold mc_row. simpl fst. simpl snd. f_equal. f_equal.
+        -- f_equal. apply (map_nth_lt _ X x0). exact Hi.
+        -- unfold mc_lift. rewrite map_map. apply map_ext. intros lf. simpl. f_equal.
+           apply (map_nth_lt _ X x0). exact Hi.
+Qed.
+End MultiClassRowwise.
+
+(** the Platt wrapper of a row function is a row function; monotonicity in the inner value *)
+Lemma platt_model_rowwise {F G Row} (oF : NumOps F) (oG : NumOps G) (cast : F -> G) (expf : G -> G)
+  (g : Row -> F) (a b : F) (X : list Row) :
+  platt_model oF oG cast expf (rowwise g) a b X
+  = rowwise (fun x => platt_predict oF oG cast expf (g x) a b) X.
+Proof. unfold platt_model, rowwise. apply map_map. Qed.
+
+Lemma platt_R_monotone_in_x (a b x1 x2 : R) : (x1 <= x2)%R ->
+  ((0 <= a)%R -> (platt_R x2 a b <= platt_R x1 a b)%R) /\ ((a <= 0)%R -> (platt_R x1 a b <= platt_R x2 a b)%R).
+Proof.
+  intros Hx. unfold platt_R, platt_lin; simpl. split; intros Ha; apply platt_sig_antitone; nra.
+Qed.
+
 (** whatever the arithmetic (reals, binary32, binary64): a probability that [Pr::new] lets through
     lies in [0,1] in that arithmetic's own order *)
 Lemma pr_new_range {F} (o : NumOps F) (p q : F) :
